@@ -93,7 +93,8 @@ Proof. intros Hf cfg translate Hh ops. apply exactly_once, Hf, Hh. Qed.
 (** the synthetic schemas of the correspondence checks meet the hypotheses *)
 Lemma oracle_translate_end input seg c : In c (oracle_translate input seg) -> si_start seg <= c_end c.
 Proof.
-  unfold oracle_translate. destruct input as [|c0 r]; [intros []|]. destruct (Byte.eqb c0 x78); [intros []|].
+  intros H0. apply InvProofs.oracle_translate_incl in H0. revert H0.
+  unfold oracle_translate_full. destruct input as [|c0 r]; [intros []|]. destruct (Byte.eqb c0 x78); [intros []|].
   intros H. apply in_flat_map in H as (L & _ & H). apply in_map_iff in H as (j & <- & _). cbn. lia.
 Qed.
 
